@@ -6,7 +6,7 @@ explicit, every note carries its symbolic duration - so the expected result of l
 from fractions import Fraction
 
 FEATURES = ["pickup", "chord", "two_voices", "two_staves", "tie_barline", "tie_chain", "tie_cross_voice", "grace", "grace_chain", "grace_run_below", "underfilled_measures", "slur", "slur_chain", "slur_overlap", "slur_barline",
-            "tuplet", "dynamics", "wedge", "wedge_overlap", "dashes", "words", "words_quantified", "constant_directions_of_three_families", "pedal", "pedal_barline", "tempo", "tempo_mid", "repeat", "repeat_inside_measures", "ending", "fermata_note", "fermata_barline", "fermata_inner_barline",
+            "tuplet", "dynamics", "wedge", "wedge_overlap", "dashes", "words", "words_quantified", "constant_directions_of_three_families", "pedal", "pedal_barline", "pedal_change_inside_a_measure", "tempo", "tempo_mid", "tempo_dotted_units", "repeat", "repeat_inside_measures", "ending", "fermata_note", "fermata_barline", "fermata_inner_barline",
             "articulation", "articulation_order", "fingering", "stem", "unpitched", "rests", "key_change", "ts_change", "clef_change", "divisions_change",
             "divisions_change_mid", "dotted", "page", "two_parts", "group", "nested_group", "nested_group_first", "voice_gap", "polyphony", "polyphony_two_voices", "polyphony_with_voices_1_and_3",
             "measure_names", "irregular_measure", "accidentals", "duplicate_ids"]
@@ -289,11 +289,21 @@ def build(features, pid="P1", seed=0):
         part.add(sc.SustainPedalDirection(line=True, staff=(2 if "two_staves" in f else None)), B.t(m3 + late), B.t(m3 + 1 + late))
     if "pedal_barline" in f:
         part.add(sc.SustainPedalDirection(line=False), B.t(m2 + 2), B.t(m3 + 1))
+    if "pedal_change_inside_a_measure" in f:
+        # legato pedalling: the pedal pressed in one bar is lifted inside the next bar at the very place where it is pressed again
+        part.add(sc.SustainPedalDirection(line=True), B.t(m1 + 1), B.t(m2 + 2))
+        part.add(sc.SustainPedalDirection(line=True), B.t(m2 + 2), B.t(m3 + 1))
     if "tempo" in f:
         part.add(sc.Tempo(100, "q"), 0)
         part.add(sc.Tempo(60, "q"), B.t(m2))
     if "tempo_mid" in f:
         part.add(sc.Tempo(72, "q"), B.t(m2 + 1))
+    if "tempo_dotted_units" in f:
+        # metronome marks on units with no, one, two and three dots
+        part.add(sc.Tempo(48, "h."), 0)
+        part.add(sc.Tempo(40, "q.."), B.t(m2))
+        part.add(sc.Tempo(64, "e."), B.t(m2 + 1))
+        part.add(sc.Tempo(32, "q..."), B.t(m3))
     # ---- repeats, endings, fermatas
     if "repeat_inside_measures" in f:
         # a repeat that begins in the middle of the first full measure and ends in the middle of the last one, where the long last note of voice 1 sounds across the sign
